@@ -152,7 +152,8 @@ def r2(ctx: Ctx) -> None:
 @rule("C08", "R3.trunk-attachment", "CLOSED/KIND",
       "the four attachment directions are images of each other under x<->y (west<->north, east<->south) and under the "
       "reflection of one axis (west<->east, north<->south); the die-border exclusions compare a coordinate with a "
-      "coordinate of the grid, never with a literal or an int()-truncated size", floor=3)
+      "coordinate of the grid, never with a literal or an int()-truncated size, and are four independent tests (a corner "
+      "cell lies on two borders)", floor=3)
 def r3(ctx: Ctx) -> None:
     f = ctx.func(RECT, "enforce_bb")
     c = canon_function(f, ctx.model)
@@ -237,7 +238,8 @@ def r3(ctx: Ctx) -> None:
 
 
 @rule("C08", "R1.coverage", "LOOP-COVER",
-      "solve(): the shape constraints are posted for every box index with box 0 as trunk; every cell is in at most one box; "
+      "solve(): the shape constraints are posted for every box index with box 0 as trunk; every cell -- unconditionally, no "
+      "skipped iteration -- is in at most one box; "
       "a cell is selected iff it is in some box", floor=3)
 def r1(ctx: Ctx) -> None:
     f = ctx.func(RECT, "solve")
